@@ -703,3 +703,155 @@ def check_parsed_board_consistent(ctx, prog, prop, full=False):
         if kind in kinds:
             rc, msg = kinds[kind][0]
             ctx.finding(R, ffn, kind, '%s (%d positions affected)' % (msg, len(kinds[kind])))
+
+
+# ------------------------------------------------------------------------------------------------ print -> parse layout
+class _Tagged(list):
+    """watch sink that records which callee fired"""
+    def __init__(self, tag, out):
+        list.__init__(self)
+        self.tag, self.out = tag, out
+
+    def append(self, x):
+        self.out.append((self.tag, x))
+
+
+def printer_skeleton(prog, I, dfn, gsv):
+    """The text Display writes for an arbitrary board, as a list of characters: constants, or ('L', square index) for the
+    one-character letter of a square, ('N',) for the move number.  None with a reason when a write is not understood."""
+    ev = []
+    I.watch = {"Arguments::<'a>::new": _Tagged('new', ev), "Arguments::<'a>::from_str": _Tagged('lit', ev),
+               'new_display': _Tagged('disp', ev)}
+    st = State({})
+    I.memo.clear()
+    try:
+        v = inputs.ref_to(I, st, 'v', gsv)
+        f = inputs.ref_to(I, st, 'f', Tok('fmt', 'std::fmt::Formatter'))
+        I.call_fn(dfn, [v, Ref(f.cell, (), True)], st)
+    finally:
+        I.watch = {}
+    out = []
+    pending = []
+    for tag, (caller, args) in ev:
+        if tag == 'disp':
+            pending.append(args[0])
+        elif tag == 'lit':
+            txt = as_text(args[0])
+            if txt is None:
+                return None, 'a literal write is not a constant string'
+            out.extend(txt)
+        else:
+            t0 = args[0]
+            hexb = ''.join('%02x' % it[1].uval() for it in t0.items) if isinstance(t0, Seq) else None
+            tmpl = decode_template(hexb) if hexb else None
+            if tmpl is None:
+                return None, 'format template %s not decoded' % hexb
+            for kind, txt in tmpl:
+                if kind == 'lit':
+                    out.extend(txt)
+                    continue
+                if not pending:
+                    return None, 'a placeholder without an argument'
+                a = pending.pop(0)
+                if isinstance(a, Term) and a.kind == 'tok':
+                    out.append(('N',))
+                elif as_text(a) is not None and not isinstance(a, BV):
+                    out.extend(as_text(a))
+                elif isinstance(a, BV) and a.known():
+                    out.extend(str(a.uval()))        # integers print in decimal (Display for usize / u8)
+                else:
+                    idxs = set()
+                    stack = [a]
+                    while stack:
+                        x = stack.pop()
+                        if isinstance(x, Ite):
+                            for var in B.rawvars(x.c):
+                                if isinstance(var, tuple) and len(var) == 2 and isinstance(var[1], int) and var[0] != '@' and var[0] != '#':
+                                    idxs.add(var[1])
+                                elif var[0] == '@':
+                                    for d in B.ATOMS[var[1]].deps:
+                                        if isinstance(d, tuple) and len(d) == 2 and isinstance(d[1], int):
+                                            idxs.add(d[1])
+                            stack.extend([x.a, x.b])
+                    if len(idxs) != 1:
+                        return None, 'a printed item depends on the board bits of squares %s (expected one square)' % sorted(idxs)
+                    out.append(('L', idxs.pop()))
+            if pending:
+                return None, 'format arguments left over'
+    return out, None
+
+
+def check_print_parse_layout(ctx, prog, prop):
+    """The printer's output skeleton (for an arbitrary board) is handed to the parser as a structured text whose square
+    letters are symbolic characters; the parser's own split / enumerate / filter / chars pipeline is interpreted on it."""
+    R = prop + '.rt'
+    ctx.rule(R, 'print -> parse: in the text Display writes, the letter of square i is read by the parser into bit i of the boards it '
+                'builds and into no other bit (split at |, odd segments, odd characters, row * 8 + column - the parser\'s own code '
+                'interpreted on the printer\'s own output skeleton)')
+    from . import summaries
+    dfn = find_impl(prog, 'std::fmt::Display', 'engine::GameState', 'fmt')
+    ffn = find_impl(prog, 'std::str::FromStr', 'engine::GameState', 'from_str')
+    if not (ctx.anchor('impl Display for GameState', dfn is not None) and ctx.anchor('impl FromStr for GameState', ffn is not None)):
+        return
+    I = inputs.make_interp(prog, fuel=40000000)
+    I.strict_unknown = False
+    try:
+        skel, why = printer_skeleton(prog, I, dfn, inputs.play_state(prog, True, 0))
+    except Undecided as e:
+        skel, why = None, 'cannot follow the printer: %s' % e
+    if skel is None:
+        ctx.ob('printer output skeleton extracted', False)
+        ctx.finding(R, dfn, 'skeleton', why)
+        return
+    letters = [c[1] for c in skel if isinstance(c, tuple) and c[0] == 'L']
+    ok = sorted(letters) == list(range(64))
+    ctx.ob('the printer writes exactly one letter per square (%d letters, %d characters)' % (len(letters), len(skel)), ok, sample=True)
+    if not ok:
+        missing = sorted(set(range(64)) - set(letters))
+        ctx.finding(R, dfn, 'letters', 'the printed diagram has %d square letters; squares without a letter: %s' % (len(letters), missing[:8]))
+        return
+    chars = []
+    for c in skel:
+        if isinstance(c, str):
+            chars.append(BV.const(ord(c), 32))
+        elif c[0] == 'N':
+            chars.append(BV.const(ord('7'), 32))        # any digits: the header is the subject of C15.hdr
+        else:
+            chars.append(Term('tok', ('L%d' % c[1],), 32, 32, 122))     # a letter, blank or x: never the separator |
+    text = summaries.text_value(chars)
+    st = State({})
+    sink = []
+    I.watch = {'PieceBoard::new': sink}
+    I.memo.clear()
+    try:
+        I.call_fn(ffn, [inputs.ref_to(I, st, 's', text)], st)
+    except Undecided as e:
+        ctx.ob('parser interpreted on the printer skeleton', False)
+        ctx.finding(R, ffn, 'undecided', 'cannot interpret the parser on the printed text: %s' % e)
+        return
+    finally:
+        I.watch = {}
+    ok = len(sink) >= 1
+    ctx.ob('the parser accepts the printed diagram', ok)
+    if not ok:
+        ctx.finding(R, ffn, 'rejected', 'the parser does not build a board from the printer\'s own output')
+        return
+    bad = []
+    for _caller, acc in sink:
+        if len(acc) != 7 or not all(isinstance(x, BV) and x.w == 64 for x in acc):
+            bad.append((0, 'PieceBoard::new receives %r' % (acc,)))
+            continue
+        for idx in range(64):
+            g = [x.bits[idx] for x in acc]
+            names = set()
+            for b_ in g:
+                for v in B.rawvars(b_):
+                    if v[0] == '@':
+                        key = repr(B.ATOMS[v[1]].key)
+                        import re as _re
+                        names.update(int(m) for m in _re.findall(r"'L(\d+)'", key))
+            if names != {idx}:
+                bad.append((idx, 'bit %d of the parsed boards depends on the printed letters of squares %s' % (idx, sorted(names))))
+    ctx.ob('bit i of every parsed board depends on the printed letter of square i and on no other letter (64 squares)', not bad, sample=True)
+    for idx, msg in bad[:4]:
+        ctx.finding(R, ffn, 'square:%d' % idx, msg)
